@@ -184,6 +184,15 @@ def gen_C20(rng, tier):
     n_rand = 100000 if tier == "thorough" else 3000
     for _ in range(n_rand):
         vals.add(rng.getrandbits(32) if rng.random() < 0.7 else rng.randrange(0x5FFFFFF0, 0x80000010))
+    # every integer literal of the Rust source of the working tree (a value the code compares with is worth trying),
+    # its neighbours, and the values that alias a small one after a truncating cast
+    lits = [v for v in vlib.source_literals() if 0 <= v < 2 ** 32]
+    for v in lits:
+        vals |= {v, v + 1, v + 2, max(v - 1, 0), max(v - 2, 0)}
+    for v in list(range(0, 24)) + [x for x in lits if x < 256]:
+        for sh in (8, 16, 24, 31):
+            for k in (1, 2, 3, 0x7F, 0xFF):
+                vals.add((v + (k << sh)) & 0xFFFFFFFF)
     vals = sorted(v for v in vals if 0 <= v < 2 ** 32)
     for v in vals:
         cases.append("conv %d" % v)
@@ -212,6 +221,17 @@ def gen_C20(rng, tier):
              "(exhaustive); magic. distinct_nontrivial = number of distinct (domain, model transcript) pairs.",
         dist=dict(values=len(vals), fb_bytes=256), exhaustive=False)
 
+
+# which files of coq/Tie (lemmas tying the hand-written model to the definitions rs2coq regenerates from the Rust source
+# on every run) a property's model depends on
+TIE_NEEDS = {
+    "C01": ["TieMbi", "TieConv"], "C02": ["TieMbi"], "C03": ["TieMbi"], "C04": ["TieMbi", "TieConv", "TieProps"],
+    "C05": ["TieMbi", "TieHdr"], "C06": ["TieMbi"], "C07": ["TieMbi", "TieHdr", "TieProps"],
+    "C08": ["TieMbi", "TieHdr", "TieConv"], "C09": ["TieHdr"], "C10": ["TieHdr"], "C11": ["TieHdr", "TieProps"],
+    "C12": ["TieHdr"], "C13": ["TieHdr"], "C14": ["TieMbi", "TieHdr"], "C15": ["TieMbi"], "C16": ["TieMbi", "TieHdr"],
+    "C17": ["TieMbi"], "C18": ["TieMbi"], "C19": ["TieMbi", "TieConv"],
+    "C20": ["TieConv", "TieMbi", "TieHdr", "TieProps"],
+}
 
 PROPS = {
     "C14": dict(gen=gen_C14, configs=["dev", "rel"], judge=judge_C14, both_placements=True,
